@@ -81,7 +81,7 @@ func Load(dir string, cfg Config, patterns ...string) (*World, error) {
 		env = append(env, "GOARCH="+cfg.GOARCH)
 	}
 	pc := &packages.Config{
-		Mode: packages.LoadAllSyntax,
+		Mode: packages.LoadAllSyntax | packages.NeedModule,
 		Dir:  dir,
 		Env:  env,
 	}
